@@ -465,7 +465,7 @@ class C10(Profile):
     level = "fault_enumeration"
     claims = {k: "C10" for k in ("payload_overwritten", "attach_not_rejected", "attach_wrong_exception", "attach_rejected",
                                  "attach_lost", "reevaluated", "hook_recall", "rows_mismatch", "payload_not_cached", "mutated",
-                                 "conform_lost_payload")}
+                                 "conform_lost_payload", "materialization_elided")}
     track_payloads = True
     fault_sites = PROC_SITES
     enumerate_faults = True
@@ -486,7 +486,7 @@ class C10(Profile):
         w = {"calc": 2, "proj": 2, "sel": 2, "dedup": 1, "sort": 1.5, "slice": 1.5, "xfer": 3, "mat": 5, "chain": 2,
              "chain_empty": 1.2, "roundtrip_empty": 0.4, "roundtrip_mat": 0.5, "reuse_mat": 0.8, "flag_on_processed": 0.4, "marker_tower": 0.6, "redeclared_twin": 0.5, "rawtree": 0.8, "custom": 1.0, "mark": 1.5, "leaf": 1, "process": 5, "run": 4, "attach": 4, "iterate": 2, "cursor_open": 0.5, "pull": 1}
         return multi_gen(rng, tier, weights=w, flags_p=0.1, engines=rng.choice([["it"], ["sql", "it"], ["sql", "it", "it2"]]),
-                         max_ops=18 if tier == "thorough" else 12, udf_p=0.1, redeclare_p=0.1, special_leaf_p=0.08)
+                         max_ops=18 if tier == "thorough" else 12, udf_p=0.1, redeclare_p=0.1, special_leaf_p=0.08, pin_p=0.4)
 
     def dn_keys(self, run):
         nm = len(run.mat_entries)
